@@ -411,6 +411,17 @@ phrases in key order, then table completions (`PreferUserPhrase`) -/
 def tableList (userExactSorted : List UCand) (sysExact : List Cand) (userPred : List UCand) (sysPred : List Cand) : List Cand :=
   userExactSorted.map UCand.toCand ++ sysExact ++ userPred.map UCand.toCand ++ sysPred
 
+/-- `TableTranslator::MakeSentence(include_prefix_phrases)` → `SentenceTranslation`, used when no dictionary has an
+exact or predictive match for the whole code: the composed sentence first, then, by decreasing prefix length, the
+exact user phrases of the prefix (sorted) or — only when the user dictionary has none for that prefix
+(`max_homographs` 1: the table lookup of an edge the user dictionary already filled is skipped) — its table
+entries.  `prefixes`: longest prefix first. -/
+def tableSentenceList (sentence : Option Bytes) (prefixes : List (List UCand × List Cand)) : List Cand :=
+  (match sentence with
+   | some t => [({ text := t, user := false, sentence := true } : Cand)]
+   | none => []) ++
+  prefixes.flatMap (fun p => if p.1.isEmpty then p.2 else p.1.map UCand.toCand)
+
 /-- the commit entry `AppendPhrase` builds out of consecutive recognized selections -/
 def assemble (sels : List Sel) : CommitEntry := sels.foldl CommitEntry.append CommitEntry.empty
 
